@@ -1090,7 +1090,8 @@ def recv (s : Sock) (len : Nat) (clk : UInt32) : R (Int × Array UInt8 × Sock) 
     else
       let available_space := s.rbuf.getWriteRemaining
       if gsub available_space s.rcv_wnd.toNat ≥ (min (s.rbuf_len / 2) s.mss).toNat then do
-        let bWasClosed := s.rcv_wnd == 0
+        -- closed = what the peer was told: the advertised (scaled) window (fix: a window below 2^scale is advertised as 0)
+        let bWasClosed := (s.rcv_wnd >>> s.rwnd_scale.toUInt32) == 0
         let s := { s with rcv_wnd := UInt32.ofNat available_space }
         let s ← (if bWasClosed then attemptSend s .sfImmediateAck clk else pure s : R Sock)
         pure ((bytesread : Int), bytes, s)
